@@ -17,17 +17,18 @@ META = {
     "selected leaf pair gets its statement), c40_once (no left operand twice), c40_same_path (same key path on both "
     "sides up to single-member unwrapping; flow = copy right into left; shapes equal when checked), c40_select (names "
     "by AssignType / iterable / mapping, and when that raises), c40_err (assign raises iff some selected call fails by "
-    "itself) are proved for every object tree and selection; c40_shapes_partial needs the hypothesis that the shape "
-    "check was made (false otherwise: finding F-b7-1, negation witness in Props/C40.lean); the model is tied to the "
+    "itself), c40_shapes (every statement between non-int operands was shape-checked and copies between equal shapes, "
+    "for all operands Python can build), c40_nested_proxy are proved for every object tree and selection; the model is tied to the "
     "code by comparing, per call, raise-or-not, the number of generated statements and the source of EVERY bit of "
     "every left-hand signal (which right-hand bit / constant / not assigned), observed by simulating the real "
     "statements with distinguishing right-hand valuations and two left-hand reset values",
     "level_note": "trusted: Lean kernel, axioms propext/Classical.choice/Quot.sound; Amaranth (layout offsets, View indexing, "
     "ArrayProxy semantics, pysim); the harness glue. Exception classes are not compared (set iteration order decides "
     "which of several errors is raised first); data.Const operands, enums, non-homogeneous Arrays and nested "
-    "ArrayProxies are not modelled. Excluded regions with proposed findings: single-member views ending in a "
-    "signed member assigned from/to a value of another shape (no shape check), ArrayProxy over array layouts "
-    "(AttributeError).",
+    "ArrayProxies (other than homogeneous nested ones) are not modelled. The two defects found here (F-b7-1 no shape "
+    "check after unwrapping a single-member view onto a signed member, F-b7-2 AttributeError for an ArrayProxy over "
+    "array layouts) were repaired in /repo (744698a, b9861c1); their witnesses are regression cases that run first "
+    "and both regions are generated normally with the monitor on.",
 }
 
 # ----------------------------------------------------------------------------- abstract syntax
@@ -430,7 +431,12 @@ def expected(lhs, rhs, sel) -> str:
     bits = {s: ["-"] * w for s, w in sigs.items()}
     for ds, off, w, src in out:
         for j in range(w):
-            bits[ds][off + j] = str((src[1] >> j) & 1) if src[0] == "c" else f"r{src[1]}.{src[2] + j}"
+            new = str((src[1] >> j) & 1) if src[0] == "c" else f"r{src[1]}.{src[2] + j}"
+            if bits[ds][off + j] not in ("-", new):
+                # two selected members overlap (union members under an ArrayProxy) and get different sources: no
+                # statement order makes every selected field equal its counterpart, only raising is acceptable
+                return "raise"
+            bits[ds][off + j] = new
     return " ".join([f"ok n={len(out)}"] + [f"L{s}=" + ",".join(bits[s]) for s in sorted(sigs)])
 
 
@@ -450,31 +456,6 @@ def monitor(case: Case, out: list[str]):
 NAMES = ["a", "b", "c", "d", "x", "y"]
 
 
-def _ends_signed(lay) -> bool:
-    t = lay[0]
-    if t == "g":
-        return True
-    if t in "su" and len(lay[1]) == 1:
-        return _ends_signed(lay[1][0][1])
-    if t == "a" and lay[2] == 1:
-        return _ends_signed(lay[1])
-    return False
-
-
-def _unsign(lay):
-    t = lay[0]
-    if t == "g":
-        return ["b", lay[1]]
-    if t in "su":
-        return [t, [[k, _unsign(l)] for k, l in lay[1]]]
-    if t == "a":
-        return ["a", _unsign(lay[1]), lay[2]]
-    return lay
-
-
-_EXCLUDE = True  # False only while generating the "outside the hypotheses" stream (compared with monitor=None)
-
-
 def gen_layout(rng, depth: int, arrays: bool = True):
     r = rng.random()
     if depth <= 0 or r < 0.35:
@@ -485,20 +466,18 @@ def gen_layout(rng, depth: int, arrays: bool = True):
         lay = ["a", gen_layout(rng, depth - 1, arrays), rng.randint(1, 3)]
     else:
         lay = ["u", [[nm, gen_layout(rng, depth - 1, arrays)] for nm in rng.sample(NAMES, rng.randint(1, 3))]]
-    # excluded region (proposed finding F-b7-1): a single-member chain ending in a signed member
-    return _unsign(lay) if _EXCLUDE and _ends_signed(lay) else lay
+    return lay
 
 
-def sanitize(lay):
-    """keep generated layouts out of the excluded region F-b7-1 at every level"""
-    if not _EXCLUDE:
-        return lay
+def _multi_union(lay) -> bool:
+    """a union with >= 2 members somewhere: under an ArrayProxy assign() treats it like a struct and assigns all
+    (overlapping) members, the result depends on set iteration order - excluded region, proposed finding F-b7-3"""
     t = lay[0]
+    if t == "u" and len(lay[1]) >= 2:
+        return True
     if t in "su":
-        lay = [t, [[k, sanitize(l)] for k, l in lay[1]]]
-    elif t == "a":
-        lay = ["a", sanitize(lay[1]), lay[2]]
-    return _unsign(lay) if _ends_signed(lay) and lay[0] not in "bg" else lay
+        return any(_multi_union(l) for _, l in lay[1])
+    return t == "a" and _multi_union(lay[1])
 
 
 def _has_array(lay) -> bool:
@@ -532,8 +511,7 @@ def mutate_layout(rng, lay):
     else:
         j = rng.randrange(len(fs))
         fs[j] = [fs[j][0], mutate_layout(rng, fs[j][1])]
-    out = [t, fs]
-    return _unsign(out) if _EXCLUDE and _ends_signed(out) else out
+    return [t, fs]
 
 
 class _Stores:
@@ -560,7 +538,7 @@ def gen_obj(rng, lay, st: _Stores, rhs: bool, depth: int = 2):
     if depth > 0 and t == "u" and r < 0.3:
         k, l = rng.choice(lay[1])
         return ["D", [[k, gen_obj(rng, l, st, rhs, depth - 1)]]]
-    if r < 0.5 and not (_EXCLUDE and _has_array(lay)):  # excluded region (proposed finding F-b7-2): ArrayProxy over array layouts
+    if r < 0.5 and not _multi_union(lay):
         depth_p = rng.choice([1, 1, 2, 3])
         if depth_p == 1:
             n = rng.randint(1, 3)
@@ -594,7 +572,6 @@ def gen_call(rng):
     other = base if rng.random() < 0.55 else mutate_layout(rng, base)
     if rng.random() < 0.1:
         other = gen_layout(rng, 2)
-    base, other = sanitize(base), sanitize(other)
     llay, rlay = (base, other) if rng.random() < 0.5 else (other, base)
     lhs = gen_obj(rng, llay, _Stores(), False)
     rhs = gen_obj(rng, rlay, _Stores(), True)
@@ -675,34 +652,43 @@ def _renumber(obj, st: "_Stores"):
     return obj
 
 
-# witnesses of the two excluded regions (reported as proposed findings, never generated)
-EXCLUDED_WITNESSES = [
-    ("F-b7-1", (["V", ["b", 4], 0], ["V", ["s", [["a", ["g", 3]]]], 0], ["m", "R"])),
-    ("F-b7-1", (["V", ["s", [["a", ["g", 3]]]], 0], ["V", ["b", 4], 0], ["m", "R"])),
-    ("F-b7-2", (["P", ["a", ["b", 2], 2], 0, [0, 1]], ["V", ["a", ["b", 2], 2], 0], ["m", "R"])),
+# witnesses of the two repaired defects: regression cases, run first on every invocation
+REPAIRED = [
+    ("744698a", "assign() skipped the shape check for a single-member structure with a signed member (F-b7-1)",
+     (["V", ["b", 4], 0], ["V", ["s", [["a", ["g", 3]]]], 0], ["m", "R"])),
+    ("744698a", "assign() skipped the shape check for a single-member structure with a signed member, mirrored (F-b7-1)",
+     (["V", ["s", [["a", ["g", 3]]]], 0], ["V", ["b", 4], 0], ["m", "R"])),
+    ("b9861c1", "assign() on an ArrayProxy of views over an ArrayLayout raised AttributeError (F-b7-2)",
+     (["P", ["a", ["b", 2], 2], 0, [0, 1]], ["V", ["a", ["b", 2], 2], 0], ["m", "R"])),
 ]
+
+
+def regression_calls():
+    """the repaired regions, a little more broadly than the three witnesses"""
+    A2 = ["a", ["b", 2], 2]
+    SA = ["s", [["x", A2], ["y", ["g", 2]]]]
+    V = lambda l, s=0: ["V", l, s]  # noqa: E731
+    m = lambda c: ["m", c]  # noqa: E731
+    return [c for _, _, c in REPAIRED] + [
+        (V(["b", 3]), V(["s", [["a", ["g", 3]]]]), m("R")), (V(["g", 3]), V(["s", [["a", ["g", 3]]]]), m("R")),
+        (V(["g", 4]), V(["a", ["g", 3], 1]), m("A")), (V(["a", ["g", 3], 1]), V(["g", 3]), m("A")),
+        (V(["s", [["a", ["s", [["b", ["g", 2]]]]]]]), V(["b", 2]), m("R")), (V(["b", 2]), V(["s", [["a", ["s", [["b", ["g", 2]]]]]]]), m("C")),
+        (["D", [["k", V(["b", 4])]]], ["D", [["k", V(["s", [["a", ["g", 3]]]])]]], m("R")),
+        (["P", ["u", [["a", ["g", 3]]]], 1, [0, 1]], V(["b", 3]), m("R")), (["P", ["u", [["a", ["g", 3]]]], 1, [0, 1]], V(["g", 3]), m("R")),
+        (["P", A2, 1, [0, 1]], ["L", [V(["b", 2]), V(["b", 2])]], m("A")), (V(A2), ["P", A2, [1, 0], [0, 1, 2, 3], [2, 2]], m("C")),
+        (["P", A2, 0, [0, 1]], V(["a", ["b", 2], 3]), m("C")), (["P", A2, 0, [0, 1]], V(["a", ["b", 2], 3]), m("R")),
+        (["P", A2, 0, [0, 1]], ["P", A2, 1, [0, 1, 2]], ["I", [1]]), (["P", SA, 1, [0, 1]], V(SA), ["M", [["x", ["I", [0]]]]]),
+        (["P", SA, [1, 0, 1], list(range(8)), [2, 2, 2]], ["P", SA, 0, [0]], m("A")), (["P", ["a", ["s", [["p", ["b", 1]]]], 2], 1, [0, 1]], V(["a", ["b", 1], 2]), m("A")),
+        (["P", ["a", ["g", 3], 1], 0, [0, 1]], V(["g", 3]), m("R")), (["P", ["a", ["g", 3], 1], 0, [0, 1]], V(["b", 3]), m("R")),
+    ]
 
 
 def gen_cases(ctx: Check) -> list[Case]:
     rng = ctx.rng("gen")
-    cases = [_mk([(_renumber(l, _Stores()), _renumber(r, _Stores()), f) for l, r, f in directed_calls()], "directed")]
-    for _ in range(ctx.pick(300, 1500)):
+    cases = [_mk([(_renumber(l, _Stores()), _renumber(r, _Stores()), f) for l, r, f in calls], "directed")
+             for calls in (regression_calls(), directed_calls())]
+    for _ in range(ctx.pick(240, 1500)):
         cases.append(_mk([gen_call(rng) for _ in range(10)], "random"))
-    return cases
-
-
-def outside_cases(ctx: Check) -> list[Case]:
-    """calls drawn WITHOUT the two exclusions (plus the witnesses of the excluded regions): here only the agreement
-    of model and implementation is checked, the property monitor is off"""
-    global _EXCLUDE
-    rng = ctx.rng("outside")
-    _EXCLUDE = False
-    try:
-        cases = [_mk([c for _, c in EXCLUDED_WITNESSES], "witness")]
-        for _ in range(ctx.pick(15, 300)):
-            cases.append(_mk([gen_call(rng) for _ in range(10)], "outside"))
-    finally:
-        _EXCLUDE = True
     return cases
 
 
@@ -721,11 +707,6 @@ def nontrivial(case: Case, out: list[str]) -> bool:
     return False
 
 
-def _monitor_inside(case: Case, out: list[str]):
-    """the property monitor, except on the stream drawn outside the hypotheses (model/implementation agreement only)"""
-    return None if case.tag in ("outside", "witness") else monitor(case, out)
-
-
 def replay_witness(w: dict) -> Optional[str]:
     case = Case("cfg", list(w["ops"]), {"component": "assign"}, "witness")
     return monitor(case, impl(case))
@@ -738,14 +719,15 @@ def run(ctx: Check):
                 "statements that leaves some left-hand bit unassigned")
     ctx.proof_stage()
     ctx.replay_findings(replay_witness)
-    cases = gen_cases(ctx)
-    lockstep(ctx, "assign", "C40", cases + outside_cases(ctx), impl, _monitor_inside, more_cases, nontrivial,
-             procs=ctx.pick(1, None))
-    # what the excluded regions do today (information for the evidence; they are proposed findings)
-    for fid, call in EXCLUDED_WITNESSES:
-        obs = _observe(*call)
-        exp = expected(*call)
-        ctx.count(f"excluded_{fid}_{'agrees' if obs.split(' #')[0] == exp else 'deviates'}")
+    # the repaired defects are regression cases whether or not known_findings.txt lists them
+    for commit, text, call in REPAIRED:
+        case = _mk([call], "witness")
+        failure = monitor(case, impl(case))
+        ctx.count("repaired_witnesses_replayed")
+        if failure:
+            ctx.violation(f"regression of repaired defect: {commit} {text}: {failure}",
+                          {"cfg": case.cfg, "ops": case.ops, "desc": case.desc})
+    lockstep(ctx, "assign", "C40", gen_cases(ctx), impl, monitor, more_cases, nontrivial, procs=ctx.pick(1, None))
 
 
 def replay(ctx: Check, body: dict):
